@@ -1,6 +1,1009 @@
-//! C20 — not built yet (stub; replaced by the real check).
+//! C20 — serde (JSON = human-readable, CBOR = compact) and Display/FromStr round trips.
+//!
+//! Oracle: the inverse. For every listed type `T` and generated value `v`
+//!   serde_json::from_str(to_string(v)) == v, serde_json::from_value(to_value(v)) == v,
+//!   serde_cbor::from_slice(to_vec(v)) == v, and T::from_str(v.to_string()) == v
+//! where both directions exist. An `Err` in either direction on the type's own output is a
+//! violation. Types whose `PartialEq` is coarser than their content (`TapTree`: root hash only)
+//! are additionally compared through the underlying builder / leaf lists.
+use std::collections::BTreeMap;
+use std::fmt::{Debug, Display};
+use std::str::FromStr;
+
+use elements::bitcoin::bip32::{KeySource, Xpub};
+use elements::confidential::{Asset, AssetBlindingFactor, Nonce, Value, ValueBlindingFactor};
+use elements::dynafed::{self, ElidedRoot, ParamsRoot};
+use elements::locktime::{Height, Time};
+use elements::pset::raw::Pair as RawPair;
+use elements::pset::{
+    Global, GlobalTxData, Input as PsetInput, Output as PsetOutput, PartiallySignedTransaction as Pset,
+    PsbtSighashType, TapTree,
+};
+use elements::secp256k1_zkp::Tweak;
+use elements::taproot::{
+    ControlBlock, LeafInfo, LeafVersion, NodeInfo, TapLeafHash, TapNodeHash, TapTweakHash, TaprootBuilder,
+};
+use elements::{
+    Address, AssetEntropy, AssetId, AssetIssuance, BlockExtData, BlockHash, ContractHash,
+    DynafedRoot, EcdsaSighashType, LockTime, OutPoint, SchnorrSighashType, ScriptHash,
+    Sequence, TxIn, TxMerkleNode, TxOut, TxOutSecrets, Txid, WScriptHash,
+    Wtxid,
+};
+use serde::de::DeserializeOwned;
+use serde::{Deserialize, Serialize};
+use serde_json::json;
+
 use crate::engine::*;
+use crate::gen::pset::{self as gp, PsetOpts};
+use crate::gen::{self, ct, TxOpts};
+use crate::props::{c06, c07};
+
+pub const KF_PSET_SERDE: &str = "pset-serde-duplicate-version-field";
+pub const KF_PARITY_JSON: &str = "control-block-parity-not-readable-from-json";
+pub const KF_BYTE_MAP_BORROWED: &str = "pset-input-byte-maps-need-borrowed-json-strings";
+
+// ------------------------------------------------------------------ round-trip core
+
+#[derive(Debug, Clone, Copy, PartialEq, Eq)]
+enum Stage {
+    Serialize,
+    Deserialize,
+    NotEqual,
+}
+
+/// one failed codec round trip
+#[derive(Debug, Clone)]
+struct RtFail {
+    codec: &'static str,
+    stage: Stage,
+    /// the (de)serializer's error message, empty for `NotEqual`
+    err: String,
+    /// prefix of the encoding / both values
+    detail: String,
+}
+
+impl RtFail {
+    fn into_failure(self, name: &str) -> Failure {
+        let what = match self.stage {
+            Stage::Serialize => "cannot be serialized",
+            Stage::Deserialize => "does not deserialize from its own serialization",
+            Stage::NotEqual => "deserializes from its own serialization to a different value",
+        };
+        Failure::new(format!("{} {} ({}): {}\n {}", name, what, self.codec, self.err, self.detail))
+    }
+}
+
+fn prefix(s: &str, n: usize) -> String {
+    if s.len() <= n {
+        return s.to_string();
+    }
+    let mut cut = n;
+    while !s.is_char_boundary(cut) {
+        cut -= 1;
+    }
+    format!("{}... [{} bytes]", &s[..cut], s.len())
+}
+
+fn dbg<T: Debug>(v: &T, n: usize) -> String {
+    prefix(&format!("{:?}", v), n)
+}
+
+const CODECS: [&str; 3] = ["json-text", "json-value", "cbor"];
+
+/// The three codec round trips of one value; every call into a (de)serializer is guarded.
+/// Returns the list of failed codecs (empty = all three round-trip).
+fn rt_core<T>(
+    name: &'static str,
+    v: &T,
+    eq: &dyn Fn(&T, &T) -> bool,
+    nontrivial: bool,
+    ctx: &mut Ctx,
+) -> Result<Vec<RtFail>, Failure>
+where
+    T: Serialize + DeserializeOwned + Debug,
+{
+    let mut fails = Vec::new();
+
+    // 1. JSON text (human-readable representation)
+    ctx.eval();
+    ctx.class(&format!("{}:{}", name, CODECS[0]));
+    let mut json_text: Option<String> = None;
+    match guard::guard("serde_json::to_string", 0, || serde_json::to_string(v))? {
+        Err(e) => fails.push(RtFail { codec: CODECS[0], stage: Stage::Serialize, err: e.to_string(), detail: dbg(v, 900) }),
+        Ok(s) => {
+            match guard::guard("serde_json::from_str", s.len(), || serde_json::from_str::<T>(&s))? {
+                Err(e) => fails.push(RtFail {
+                    codec: CODECS[0],
+                    stage: Stage::Deserialize,
+                    err: e.to_string(),
+                    detail: format!("json={}", prefix(&s, 1100)),
+                }),
+                Ok(b) => {
+                    if !eq(&b, v) {
+                        fails.push(RtFail {
+                            codec: CODECS[0],
+                            stage: Stage::NotEqual,
+                            err: String::new(),
+                            detail: format!("json={}\n before={}\n after ={}", prefix(&s, 500), dbg(v, 500), dbg(&b, 500)),
+                        });
+                    }
+                }
+            }
+            json_text = Some(s);
+        }
+    }
+
+    // 2. JSON value tree
+    ctx.eval();
+    ctx.class(&format!("{}:{}", name, CODECS[1]));
+    match guard::guard("serde_json::to_value", 0, || serde_json::to_value(v))? {
+        Err(e) => fails.push(RtFail { codec: CODECS[1], stage: Stage::Serialize, err: e.to_string(), detail: dbg(v, 900) }),
+        Ok(val) => {
+            let shown = if fails.is_empty() { String::new() } else { prefix(&val.to_string(), 1100) };
+            match guard::guard("serde_json::from_value", 0, || serde_json::from_value::<T>(val))? {
+                Err(e) => fails.push(RtFail {
+                    codec: CODECS[1],
+                    stage: Stage::Deserialize,
+                    err: e.to_string(),
+                    detail: format!("value={}", if shown.is_empty() { json_text.as_deref().map(|s| prefix(s, 1100)).unwrap_or_default() } else { shown }),
+                }),
+                Ok(b) => {
+                    if !eq(&b, v) {
+                        fails.push(RtFail {
+                            codec: CODECS[1],
+                            stage: Stage::NotEqual,
+                            err: String::new(),
+                            detail: format!("before={}\n after ={}", dbg(v, 700), dbg(&b, 700)),
+                        });
+                    }
+                }
+            }
+        }
+    }
+
+    // 3. CBOR (binary self-describing; `is_human_readable() == false`: compact representation)
+    ctx.eval();
+    ctx.class(&format!("{}:{}", name, CODECS[2]));
+    match guard::guard("serde_cbor::to_vec", 0, || serde_cbor::to_vec(v))? {
+        Err(e) => fails.push(RtFail { codec: CODECS[2], stage: Stage::Serialize, err: e.to_string(), detail: dbg(v, 900) }),
+        Ok(bytes) => match guard::guard("serde_cbor::from_slice", bytes.len(), || serde_cbor::from_slice::<T>(&bytes))? {
+            Err(e) => fails.push(RtFail {
+                codec: CODECS[2],
+                stage: Stage::Deserialize,
+                err: e.to_string(),
+                detail: format!("cbor={}\n value={}", prefix(&hex(&bytes), 800), dbg(v, 400)),
+            }),
+            Ok(b) => {
+                if !eq(&b, v) {
+                    fails.push(RtFail {
+                        codec: CODECS[2],
+                        stage: Stage::NotEqual,
+                        err: String::new(),
+                        detail: format!("cbor={}\n before={}\n after ={}", prefix(&hex(&bytes), 400), dbg(v, 500), dbg(&b, 500)),
+                    });
+                }
+            }
+        },
+    }
+
+    if nontrivial {
+        if let Some(s) = &json_text {
+            ctx.nontrivial(&(name, s));
+            if ctx.wants_sample(name) {
+                ctx.sample(name, || json!({"type": name, "json_prefix": prefix(s, 100)}));
+            }
+        }
+    }
+    Ok(fails)
+}
+
+fn serde_rt_with<T>(name: &'static str, v: &T, eq: &dyn Fn(&T, &T) -> bool, nontrivial: bool, ctx: &mut Ctx) -> R
+where
+    T: Serialize + DeserializeOwned + Debug,
+{
+    match rt_core(name, v, eq, nontrivial, ctx)?.into_iter().next() {
+        None => Ok(()),
+        Some(f) => Err(f.into_failure(name)),
+    }
+}
+
+fn serde_rt_nt<T>(name: &'static str, v: &T, nontrivial: bool, ctx: &mut Ctx) -> R
+where
+    T: Serialize + DeserializeOwned + PartialEq + Debug,
+{
+    serde_rt_with(name, v, &|a: &T, b: &T| a == b, nontrivial, ctx)
+}
+
+/// JSON text, JSON value and CBOR round trip of one value, compared with `==`
+pub fn serde_rt<T>(name: &'static str, v: &T, ctx: &mut Ctx) -> R
+where
+    T: Serialize + DeserializeOwned + PartialEq + Debug,
+{
+    serde_rt_nt(name, v, true, ctx)
+}
+
+/// `T::from_str(&v.to_string()) == v`
+fn str_rt<T>(name: &'static str, v: &T, nontrivial: bool, ctx: &mut Ctx) -> R
+where
+    T: Display + FromStr + PartialEq + Debug,
+    T::Err: Debug,
+{
+    ctx.eval();
+    ctx.class(&format!("{}:display-fromstr", name));
+    let s = guard::guard("to_string", 0, || v.to_string())?;
+    match guard::guard("from_str", s.len(), || T::from_str(&s))? {
+        Err(e) => Err(Failure::new(format!("{}::from_str rejects the value's own Display form {:?}: {:?} (value {})", name, prefix(&s, 600), e, dbg(v, 400)))),
+        Ok(b) => {
+            if &b != v {
+                return Err(Failure::new(format!(
+                    "{}::from_str(to_string(v)) != v: text={:?}\n before={}\n after ={}",
+                    name,
+                    prefix(&s, 400),
+                    dbg(v, 500),
+                    dbg(&b, 500)
+                )));
+            }
+            if nontrivial {
+                ctx.nontrivial(&(name, "str", &s));
+                let cls = format!("{}:str", name);
+                if ctx.wants_sample(&cls) {
+                    ctx.sample(&cls, || json!({"type": name, "text": prefix(&s, 100)}));
+                }
+            }
+            Ok(())
+        }
+    }
+}
+
+// ------------------------------------------------------------------ small generators
+
+fn gen_arr32(t: &mut Tape) -> [u8; 32] {
+    match t.below(8) {
+        0 => [0u8; 32],
+        1 => [0xff; 32],
+        2 => {
+            let mut a = [0u8; 32];
+            a[0] = 1;
+            a
+        }
+        3 => {
+            let mut a = [0u8; 32];
+            a[31] = 1;
+            a
+        }
+        _ => t.arr32(),
+    }
+}
+fn gen_arr20(t: &mut Tape) -> [u8; 20] {
+    match t.below(6) {
+        0 => [0u8; 20],
+        1 => [0xff; 20],
+        _ => t.arr20(),
+    }
+}
+
+fn gen_abf(t: &mut Tape, salt: u32) -> AssetBlindingFactor {
+    match t.below(5) {
+        0 => AssetBlindingFactor::zero(),
+        1 => AssetBlindingFactor::from_slice(gen::gen_tweak(t).as_ref()).unwrap_or_else(|_| AssetBlindingFactor::zero()),
+        2 => {
+            // small scalar: leading zero bytes must survive the reversed-hex text form
+            let mut a = [0u8; 32];
+            a[31] = t.u8();
+            a[30] = t.u8();
+            AssetBlindingFactor::from_slice(&a).unwrap_or_else(|_| AssetBlindingFactor::zero())
+        }
+        _ => ct::abf_from(t, salt),
+    }
+}
+fn gen_vbf(t: &mut Tape, salt: u32) -> ValueBlindingFactor {
+    match t.below(5) {
+        0 => ValueBlindingFactor::zero(),
+        1 => ValueBlindingFactor::from_slice(gen::gen_tweak(t).as_ref()).unwrap_or_else(|_| ValueBlindingFactor::zero()),
+        2 => {
+            let mut a = [0u8; 32];
+            a[0] = t.u8() & 0x7f;
+            a[31] = t.u8();
+            ValueBlindingFactor::from_slice(&a).unwrap_or_else(|_| ValueBlindingFactor::zero())
+        }
+        _ => ct::vbf_from(t, salt),
+    }
+}
+
+const ECDSA_TYPES: [EcdsaSighashType; 6] = [
+    EcdsaSighashType::All,
+    EcdsaSighashType::None,
+    EcdsaSighashType::Single,
+    EcdsaSighashType::AllPlusAnyoneCanPay,
+    EcdsaSighashType::NonePlusAnyoneCanPay,
+    EcdsaSighashType::SinglePlusAnyoneCanPay,
+];
+
+fn gen_psbt_sighash(t: &mut Tape) -> PsbtSighashType {
+    match t.below(6) {
+        0 => t.choose(&gp::SCHNORR_TYPES).into(),
+        1 => t.choose(&ECDSA_TYPES).into(),
+        2 => PsbtSighashType::from_u32(t.choose(&[0xffu32, 0x100, 0x80, 0x04, 0x84, 0x7f, 0x1_0000_0000u64 as u32, 0xffff_ffff, 0x10, 0xa])),
+        3 => PsbtSighashType::from_u32(t.u8() as u32),
+        _ => PsbtSighashType::from_u32(t.edgy_u32()),
+    }
+}
+
+fn gen_outpoint(t: &mut Tape) -> OutPoint {
+    match t.below(5) {
+        0 => OutPoint::null(),
+        1 => OutPoint { txid: gen::gen_txid(t), vout: 0xffff_ffff },
+        _ => OutPoint { txid: gen::gen_txid(t), vout: t.edgy_u32() },
+    }
+}
+
+/// builders in every state: empty, incomplete (holes in the branch vector), with hidden nodes, complete
+fn gen_builder(t: &mut Tape) -> TaprootBuilder {
+    match t.below(5) {
+        0 => TaprootBuilder::new(),
+        1 => {
+            // incomplete: one leaf at depth d >= 1
+            let d = 1 + t.below(4);
+            let s = gen::gen_script(t, false);
+            TaprootBuilder::new().add_leaf_with_ver(d, s, gp::gen_leaf_version(t)).unwrap_or_default()
+        }
+        2 => {
+            // a hidden node next to a leaf (complete), or two hidden nodes
+            let h = TapNodeHash::from_byte_array(gen_arr32(t));
+            let b = TaprootBuilder::new().add_hidden(1, h).unwrap_or_default();
+            if t.bool() {
+                b.add_leaf(1, gen::gen_script(t, false)).unwrap_or_default()
+            } else {
+                b.add_hidden(1, TapNodeHash::from_byte_array(gen_arr32(t))).unwrap_or_default()
+            }
+        }
+        _ => match gp::gen_tap_tree(t, 8) {
+            Some((tt, _)) => tt.into_inner(),
+            None => TaprootBuilder::new(),
+        },
+    }
+}
+
+fn tap_tree_eq(a: &Option<TapTree>, b: &Option<TapTree>) -> bool {
+    match (a, b) {
+        (None, None) => true,
+        (Some(x), Some(y)) => x == y && x.clone().into_inner() == y.clone().into_inner() && gp::tap_tree_leaves(x) == gp::tap_tree_leaves(y),
+        _ => false,
+    }
+}
+fn output_eq(a: &PsetOutput, b: &PsetOutput) -> bool {
+    a == b && tap_tree_eq(&a.tap_tree, &b.tap_tree)
+}
+fn pset_full_eq(a: &Pset, b: &Pset) -> bool {
+    a == b
+        && c07::pset_eq(a, b)
+        && a.outputs().len() == b.outputs().len()
+        && a.outputs().iter().zip(b.outputs().iter()).all(|(x, y)| output_eq(x, y))
+}
+
+// ------------------------------------------------------------------ sub-check: transactions
+
+fn txout_nontrivial(o: &TxOut) -> bool {
+    o.asset.is_confidential() || o.value.is_confidential() || !o.nonce.is_null() || !o.witness.is_empty()
+}
+fn txin_nontrivial(i: &TxIn) -> bool {
+    i.is_pegin || i.has_issuance() || !i.witness.is_empty()
+}
+
+fn tx_family(t: &mut Tape, ctx: &mut Ctx) -> R {
+    let o = TxOpts { big: t.chance(24), ..TxOpts::default() };
+    match t.below(10) {
+        0..=3 => {
+            let tx = gen::gen_tx(t, &o);
+            let feats = gen::tx_features(&tx);
+            for f in &feats {
+                ctx.class(&format!("tx-feature:{}", f));
+            }
+            serde_rt_nt("Transaction", &tx, !feats.is_empty(), ctx)
+        }
+        4 => {
+            let i = gen::gen_txin(t, &o);
+            serde_rt_nt("TxIn", &i, txin_nontrivial(&i), ctx)
+        }
+        5 => {
+            let x = gen::gen_txout(t, &o);
+            serde_rt_nt("TxOut", &x, txout_nontrivial(&x), ctx)
+        }
+        6 => {
+            let w = gen::gen_in_witness(t, o.big);
+            serde_rt_nt("TxInWitness", &w, !w.is_empty(), ctx)
+        }
+        7 => {
+            let w = gen::gen_out_witness(t);
+            serde_rt_nt("TxOutWitness", &w, !w.is_empty(), ctx)
+        }
+        8 => {
+            let p = gen_outpoint(t);
+            serde_rt_nt("OutPoint", &p, p != OutPoint::null(), ctx)
+        }
+        _ => {
+            let i = if t.chance(40) { AssetIssuance::null() } else { gen::gen_issuance_nonnull(t) };
+            serde_rt_nt("AssetIssuance", &i, !i.is_null(), ctx)
+        }
+    }
+}
+
+// ------------------------------------------------------------------ sub-check: blocks, headers, params
+
+fn params_kind(p: &dynafed::Params) -> &'static str {
+    match p {
+        dynafed::Params::Null => "null",
+        dynafed::Params::Compact { .. } => "compact",
+        dynafed::Params::Full(_) => "full",
+    }
+}
+fn ext_nontrivial(e: &BlockExtData) -> bool {
+    match e {
+        BlockExtData::Proof { challenge, solution } => !challenge.is_empty() || !solution.is_empty(),
+        BlockExtData::Dynafed { current, proposed, signblock_witness } => {
+            !current.is_null() || !proposed.is_null() || !signblock_witness.is_empty()
+        }
+    }
+}
+
+fn block_family(t: &mut Tape, ctx: &mut Ctx) -> R {
+    match t.below(8) {
+        0 | 1 => {
+            let b = gen::gen_block(t);
+            ctx.class(&format!("block:txs={}", if b.txdata.len() > 8 { ">8".to_string() } else { b.txdata.len().to_string() }));
+            serde_rt_nt("Block", &b, !b.txdata.is_empty() && ext_nontrivial(&b.header.ext), ctx)
+        }
+        2 | 3 => {
+            let h = gen::gen_header(t);
+            match &h.ext {
+                BlockExtData::Proof { .. } => ctx.class("header:proof"),
+                BlockExtData::Dynafed { current, proposed, .. } => {
+                    ctx.class(&format!("header:dynafed:{}+{}", params_kind(current), params_kind(proposed)))
+                }
+            }
+            serde_rt_nt("BlockHeader", &h, ext_nontrivial(&h.ext), ctx)
+        }
+        4 => {
+            let h = gen::gen_header(t);
+            serde_rt_nt("BlockExtData", &h.ext, ext_nontrivial(&h.ext), ctx)
+        }
+        _ => {
+            // values the library itself serializes: each of the three variants selects itself again
+            // by the set of fields it writes
+            let p = gen::gen_params(t);
+            ctx.class(&format!("params:{}", params_kind(&p)));
+            serde_rt_nt("dynafed::Params", &p, !p.is_null(), ctx)
+        }
+    }
+}
+
+// ------------------------------------------------------------------ sub-check: confidential types
+
+fn confidential(t: &mut Tape, ctx: &mut Ctx) -> R {
+    let a = gen::gen_asset(t);
+    ctx.class(match a {
+        Asset::Null => "asset:null",
+        Asset::Explicit(_) => "asset:explicit",
+        Asset::Confidential(_) => "asset:confidential",
+    });
+    serde_rt_nt("confidential::Asset", &a, !a.is_null(), ctx)?;
+    let v = gen::gen_value(t);
+    ctx.class(match v {
+        Value::Null => "value:null",
+        Value::Explicit(n) if n > (1 << 53) => "value:explicit>2^53",
+        Value::Explicit(_) => "value:explicit",
+        Value::Confidential(_) => "value:confidential",
+    });
+    serde_rt_nt("confidential::Value", &v, !v.is_null(), ctx)?;
+    let n = gen::gen_nonce(t);
+    ctx.class(match n {
+        Nonce::Null => "nonce:null",
+        Nonce::Explicit(_) => "nonce:explicit",
+        Nonce::Confidential(_) => "nonce:confidential",
+    });
+    serde_rt_nt("confidential::Nonce", &n, !n.is_null(), ctx)?;
+    let abf = gen_abf(t, 1);
+    serde_rt_nt("AssetBlindingFactor", &abf, abf != AssetBlindingFactor::zero(), ctx)?;
+    let vbf = gen_vbf(t, 2);
+    serde_rt_nt("ValueBlindingFactor", &vbf, vbf != ValueBlindingFactor::zero(), ctx)?;
+    let s = TxOutSecrets::new(gen::gen_asset_id(t), gen_abf(t, 3), t.edgy_u64(), gen_vbf(t, 4));
+    if s.value > (1 << 53) {
+        ctx.class("secrets:value>2^53");
+    }
+    serde_rt_nt("TxOutSecrets", &s, s.asset_bf != AssetBlindingFactor::zero() || s.value_bf != ValueBlindingFactor::zero(), ctx)
+}
+
+// ------------------------------------------------------------------ sub-check: hash newtypes and small types
+
+fn hashes_and_small(t: &mut Tape, ctx: &mut Ctx) -> R {
+    macro_rules! h32 {
+        ($name:literal, $ty:ty) => {{
+            let b = gen_arr32(t);
+            let v = <$ty>::from_byte_array(b);
+            serde_rt_nt($name, &v, b != [0u8; 32], ctx)?;
+        }};
+    }
+    h32!("Txid", Txid);
+    h32!("Wtxid", Wtxid);
+    h32!("BlockHash", BlockHash);
+    h32!("TxMerkleNode", TxMerkleNode);
+    h32!("WScriptHash", WScriptHash);
+    h32!("ContractHash", ContractHash);
+    h32!("AssetId", AssetId);
+    h32!("AssetEntropy", AssetEntropy);
+    h32!("DynafedRoot", DynafedRoot);
+    h32!("ParamsRoot", ParamsRoot);
+    h32!("ElidedRoot", ElidedRoot);
+    h32!("TapLeafHash", TapLeafHash);
+    h32!("TapNodeHash", TapNodeHash);
+    h32!("TapTweakHash", TapTweakHash);
+    {
+        let b = gen_arr20(t);
+        serde_rt_nt("ScriptHash", &ScriptHash::from_byte_array(b), b != [0u8; 20], ctx)?;
+    }
+    let lt = gen::gen_locktime(t);
+    ctx.class(match lt {
+        LockTime::Blocks(_) => "locktime:blocks",
+        LockTime::Seconds(_) => "locktime:seconds",
+    });
+    serde_rt_nt("LockTime", &lt, lt != LockTime::ZERO, ctx)?;
+    let h = gp::gen_height(t);
+    serde_rt_nt("locktime::Height", &h, h != Height::ZERO, ctx)?;
+    let tm = gp::gen_time(t);
+    serde_rt_nt("locktime::Time", &tm, true, ctx)?;
+    let sq = Sequence(t.edgy_u32());
+    serde_rt_nt("Sequence", &sq, sq != Sequence::MAX, ctx)?;
+    let e = t.choose(&ECDSA_TYPES);
+    serde_rt_nt("EcdsaSighashType", &e, e != EcdsaSighashType::All, ctx)?;
+    let s = t.choose(&gp::SCHNORR_TYPES);
+    serde_rt_nt("SchnorrSighashType", &s, s != SchnorrSighashType::Default, ctx)?;
+    let p = gen_psbt_sighash(t);
+    ctx.class(if p.schnorr_hash_ty().is_some() { "psbt-sighash:named" } else { "psbt-sighash:raw" });
+    serde_rt_nt("PsbtSighashType", &p, p.schnorr_hash_ty().is_none() || p.to_u32() != 0, ctx)?;
+    let sig = gp::gen_schnorr_sig(t);
+    serde_rt_nt("SchnorrSig", &sig, sig.hash_ty != SchnorrSighashType::Default, ctx)?;
+    let lv = gp::gen_leaf_version(t);
+    serde_rt_nt("LeafVersion", &lv, lv != LeafVersion::default(), ctx)?;
+    if let Some(cb) = gp::gen_control_block(t) {
+        ctx.class(&format!("control-block:depth={}", cb.merkle_branch.as_inner().len()));
+        let fails = rt_core("ControlBlock", &cb, &|a: &ControlBlock, b: &ControlBlock| a == b, !cb.merkle_branch.as_inner().is_empty(), ctx)?;
+        settle("ControlBlock", fails, Allow { parity: true, ..Allow::default() }, ctx)?;
+        serde_rt_nt("TaprootMerkleBranch", &cb.merkle_branch, !cb.merkle_branch.as_inner().is_empty(), ctx)?;
+    }
+    let b = gen_builder(t);
+    ctx.class(if b == TaprootBuilder::new() {
+        "builder:empty"
+    } else if b.is_complete() {
+        "builder:complete"
+    } else {
+        "builder:incomplete"
+    });
+    serde_rt_nt("TaprootBuilder", &b, b != TaprootBuilder::new(), ctx)?;
+    if let Ok(tt) = TapTree::from_inner(b) {
+        let leaves = gp::tap_tree_leaves(&tt).len();
+        let tt = Some(tt);
+        serde_rt_with("pset::TapTree", &tt, &|a, b| tap_tree_eq(a, b), leaves >= 2, ctx)?;
+    }
+    let leaf = LeafInfo::new(gen::gen_script(t, false), gp::gen_leaf_version(t));
+    serde_rt_nt("taproot::LeafInfo", &leaf, true, ctx)?;
+    let node = {
+        let a = NodeInfo::new_leaf_with_ver(gen::gen_script(t, false), gp::gen_leaf_version(t));
+        match t.below(3) {
+            0 => NodeInfo::new_hidden(TapNodeHash::from_byte_array(gen_arr32(t))),
+            1 => a,
+            _ => {
+                let b = if t.bool() {
+                    NodeInfo::new_hidden(TapNodeHash::from_byte_array(gen_arr32(t)))
+                } else {
+                    NodeInfo::new_leaf_with_ver(gen::gen_script(t, false), gp::gen_leaf_version(t))
+                };
+                NodeInfo::combine(a.clone(), b).unwrap_or(a)
+            }
+        }
+    };
+    serde_rt_nt("taproot::NodeInfo", &node, true, ctx)?;
+    let tw = gen::gen_tweak(t);
+    serde_rt_nt("Tweak(issuance nonce)", &tw, true, ctx)?;
+    Ok(())
+}
+
+// ------------------------------------------------------------------ sub-check: addresses and scripts
+
+fn addresses_scripts(t: &mut Tape, ctx: &mut Ctx) -> R {
+    let r = c06::gen_ref_addr(t);
+    let a = c06::to_lib(&r)?;
+    let cls = match &a.payload {
+        elements::address::Payload::PubkeyHash(_) => "p2pkh".to_string(),
+        elements::address::Payload::ScriptHash(_) => "p2sh".to_string(),
+        elements::address::Payload::WitnessProgram { version, program } => {
+            format!("v{}/{}", if version.to_u8() > 1 { "2+".to_string() } else { version.to_u8().to_string() }, if [2, 20, 32, 40].contains(&program.len()) { program.len().to_string() } else { "other".to_string() })
+        }
+    };
+    ctx.class(&format!("address:{}{}:net{}", cls, if a.blinding_pubkey.is_some() { "/blinded" } else { "" }, r.net));
+    let nt = a.blinding_pubkey.is_some() || matches!(&a.payload, elements::address::Payload::WitnessProgram { .. });
+    serde_rt_nt("Address", &a, nt, ctx)?;
+    str_rt("Address", &a, nt, ctx)?;
+    let big = t.chance(24);
+    let s = gen::gen_script(t, big);
+    ctx.class(if s.is_empty() {
+        "script:empty"
+    } else if s.len() >= 0xfd {
+        "script:>=0xfd"
+    } else {
+        "script:short"
+    });
+    serde_rt_nt("Script", &s, !s.is_empty(), ctx)
+}
+
+// ------------------------------------------------------------------ sub-check: PSET parts
+
+/// The field types of `pset::Global` that no other PSET map uses (transaction data, xpub map keyed by
+/// extended keys, scalar list), side by side in a plain struct: exercised on their own because the
+/// listed finding stops every `Global` at its first key.
+#[derive(Serialize, Deserialize, PartialEq, Debug)]
+struct GlobalPieces {
+    tx_data: GlobalTxData,
+    pset_version: u32,
+    xpub: BTreeMap<Xpub, KeySource>,
+    scalars: Vec<Tweak>,
+    elements_tx_modifiable_flag: Option<u8>,
+}
+
+fn input_families(i: &PsetInput) -> Vec<&'static str> {
+    let mut f = Vec::new();
+    if i.non_witness_utxo.is_some() || i.witness_utxo.is_some() {
+        f.push("utxo");
+    }
+    if !i.partial_sigs.is_empty() || !i.bip32_derivation.is_empty() {
+        f.push("key-maps");
+    }
+    if !i.ripemd160_preimages.is_empty() || !i.sha256_preimages.is_empty() || !i.hash160_preimages.is_empty() || !i.hash256_preimages.is_empty() {
+        f.push("preimages");
+    }
+    if i.tap_key_sig.is_some() || !i.tap_script_sigs.is_empty() || !i.tap_scripts.is_empty() || !i.tap_key_origins.is_empty() || i.tap_internal_key.is_some() || i.tap_merkle_root.is_some() {
+        f.push("taproot");
+    }
+    if i.issuance_value_rangeproof.is_some() || i.issuance_keys_rangeproof.is_some() || i.in_utxo_rangeproof.is_some() || i.in_issuance_blind_value_proof.is_some() || i.in_issuance_blind_inflation_keys_proof.is_some() || i.blind_value_proof.is_some() || i.blind_asset_proof.is_some() {
+        f.push("proofs");
+    }
+    if i.pegin_tx.is_some() || i.pegin_txout_proof.is_some() || i.pegin_witness.is_some() || i.pegin_genesis_hash.is_some() || i.pegin_claim_script.is_some() || i.pegin_value.is_some() {
+        f.push("pegin");
+    }
+    if i.issuance_value_amount.is_some() || i.issuance_value_comm.is_some() || i.issuance_inflation_keys.is_some() || i.issuance_inflation_keys_comm.is_some() || i.issuance_blinding_nonce.is_some() || i.issuance_asset_entropy.is_some() {
+        f.push("issuance");
+    }
+    if [i.issuance_value_amount, i.pegin_value, i.issuance_inflation_keys, i.amount].iter().flatten().any(|v| *v > (1 << 53)) {
+        f.push("u64>2^53");
+    }
+    if i.sighash_type.is_some() || i.sequence.is_some() || i.required_time_locktime.is_some() || i.required_height_locktime.is_some() {
+        f.push("sighash/sequence/locktimes");
+    }
+    if !i.proprietary.is_empty() || !i.unknown.is_empty() {
+        f.push("proprietary/unknown");
+    }
+    f
+}
+fn output_families(o: &PsetOutput) -> Vec<&'static str> {
+    let mut f = Vec::new();
+    if o.amount_comm.is_some() || o.asset_comm.is_some() {
+        f.push("commitments");
+    }
+    if o.value_rangeproof.is_some() || o.asset_surjection_proof.is_some() || o.blind_value_proof.is_some() || o.blind_asset_proof.is_some() {
+        f.push("proofs");
+    }
+    if o.blinding_key.is_some() || o.ecdh_pubkey.is_some() {
+        f.push("blinding-keys");
+    }
+    if !o.bip32_derivation.is_empty() || !o.tap_key_origins.is_empty() {
+        f.push("key-maps");
+    }
+    if o.tap_tree.is_some() {
+        f.push("tap-tree");
+    }
+    if o.tap_internal_key.is_some() {
+        f.push("tap-internal-key");
+    }
+    if o.amount.map_or(false, |v| v > (1 << 53)) {
+        f.push("u64>2^53");
+    }
+    if !o.proprietary.is_empty() || !o.unknown.is_empty() {
+        f.push("proprietary/unknown");
+    }
+    f
+}
+
+/// which listed findings a value can run into (GUIDE rule 7: each is matched by its exact signature)
+#[derive(Clone, Copy, Default)]
+struct Allow {
+    /// the value is a `pset::Global` or a whole PSET
+    dup_version: bool,
+    /// the value contains a `ControlBlock` (whose `output_key_parity` is a `secp256k1::Parity`)
+    parity: bool,
+    /// the value contains a non-empty map written by `serde_utils::btreemap_byte_values`
+    /// (`partial_sigs` or one of the four preimage maps of a PSET input)
+    byte_value_map: bool,
+}
+
+fn is_dup_version(f: &RtFail) -> bool {
+    // the serialized map carries the key `version` twice; a `serde_json::Value` tree keeps only one
+    // of the two, so reading it back misses the other
+    f.stage == Stage::Deserialize
+        && (f.err.contains("duplicate field `version`") || (f.codec == CODECS[1] && f.err.contains("missing field `version`")))
+}
+fn is_parity_json(f: &RtFail) -> bool {
+    f.stage == Stage::Deserialize
+        && (f.codec == CODECS[0] || f.codec == CODECS[1])
+        && f.err.contains("invalid type: integer")
+        && f.err.contains("expected 8-bit integer (byte) with value 0 or 1")
+}
+
+fn is_borrowed_str(f: &RtFail) -> bool {
+    f.stage == Stage::Deserialize && f.codec == CODECS[1] && f.err.contains("invalid type: string") && f.err.contains("expected a borrowed string")
+}
+
+/// every failed codec must carry exactly the signature of a listed finding the value can run into
+fn settle(name: &'static str, fails: Vec<RtFail>, allow: Allow, ctx: &mut Ctx) -> R {
+    for f in fails {
+        if allow.dup_version && is_dup_version(&f) && ctx.is_known(KF_PSET_SERDE) {
+            ctx.class(&format!("{}:{}:known-duplicate-version", name, f.codec));
+            continue;
+        }
+        if allow.parity && is_parity_json(&f) && ctx.is_known(KF_PARITY_JSON) {
+            ctx.class(&format!("{}:{}:known-parity-json", name, f.codec));
+            continue;
+        }
+        if allow.byte_value_map && is_borrowed_str(&f) && ctx.is_known(KF_BYTE_MAP_BORROWED) {
+            ctx.class(&format!("{}:{}:known-byte-map-borrowed-str", name, f.codec));
+            continue;
+        }
+        return Err(f.into_failure(name));
+    }
+    Ok(())
+}
+
+fn has_byte_value_map(i: &PsetInput) -> bool {
+    !i.partial_sigs.is_empty() || !i.ripemd160_preimages.is_empty() || !i.sha256_preimages.is_empty() || !i.hash160_preimages.is_empty() || !i.hash256_preimages.is_empty()
+}
+
+fn pset_parts(t: &mut Tape, ctx: &mut Ctx) -> R {
+    match t.below(10) {
+        0..=3 => {
+            let density = t.choose(&[40u32, 100, 160, 230, 256]);
+            let i = gp::gen_input(t, density);
+            let fams = input_families(&i);
+            for f in &fams {
+                ctx.class(&format!("input-family:{}", f));
+            }
+            let fails = rt_core("pset::Input", &i, &|a: &PsetInput, b: &PsetInput| a == b, !fams.is_empty(), ctx)?;
+            settle("pset::Input", fails, Allow { parity: !i.tap_scripts.is_empty(), byte_value_map: has_byte_value_map(&i), dup_version: false }, ctx)
+        }
+        4..=6 => {
+            let density = t.choose(&[40u32, 100, 160, 230, 256]);
+            let n_inputs = 1 + t.below(3);
+            let o = gp::gen_output(t, density, n_inputs);
+            let fams = output_families(&o);
+            for f in &fams {
+                ctx.class(&format!("output-family:{}", f));
+            }
+            serde_rt_with("pset::Output", &o, &|a, b| output_eq(a, b), !fams.is_empty(), ctx)
+        }
+        7 => {
+            // the global map of a generated PSET, its transaction data alone, and its field types
+            // side by side in a plain struct
+            let p = gp::gen_pset(t, &PsetOpts { max_in: 1, max_out: 1, extractable: false });
+            let g: Global = p.global;
+            let nt = !g.xpub.is_empty() || !g.scalars.is_empty() || !g.proprietary.is_empty() || !g.unknown.is_empty() || g.tx_data.fallback_locktime.is_some();
+            serde_rt_nt("pset::GlobalTxData", &g.tx_data, g.tx_data != GlobalTxData::default(), ctx)?;
+            let flat = GlobalPieces {
+                tx_data: g.tx_data.clone(),
+                pset_version: g.version,
+                xpub: g.xpub.clone(),
+                scalars: g.scalars.clone(),
+                elements_tx_modifiable_flag: g.elements_tx_modifiable_flag,
+            };
+            serde_rt_nt("pset::Global field types (tx_data, xpub, scalars)", &flat, nt, ctx)?;
+            let fails = rt_core("pset::Global", &g, &|a: &Global, b: &Global| a == b, nt, ctx)?;
+            settle("pset::Global", fails, Allow { dup_version: true, ..Allow::default() }, ctx)
+        }
+        8 => {
+            let scope = t.below(3) as u8;
+            let k = gp::gen_unknown_key(t, scope);
+            serde_rt_nt("pset::raw::Key", &k, !k.key.is_empty(), ctx)?;
+            let scope = t.below(3) as u8;
+            let pk = gp::gen_prop_key(t, scope);
+            serde_rt_nt("pset::raw::ProprietaryKey", &pk, !pk.prefix.is_empty() || !pk.key.is_empty(), ctx)?;
+            let l = t.below(40);
+            let pair = RawPair { key: k, value: t.bytes(l) };
+            serde_rt_nt("pset::raw::Pair", &pair, !pair.value.is_empty(), ctx)
+        }
+        _ => {
+            let max = if t.chance(40) { 24 } else { 6 };
+            match gp::gen_tap_tree(t, max) {
+                Some((tt, leaves)) => {
+                    ctx.class(&format!("tap-tree:leaves={}", if leaves.len() > 8 { ">8".to_string() } else { leaves.len().to_string() }));
+                    let tt = Some(tt);
+                    serde_rt_with("pset::TapTree", &tt, &|a, b| tap_tree_eq(a, b), leaves.len() >= 2, ctx)
+                }
+                None => Ok(()),
+            }
+        }
+    }
+}
+
+// ------------------------------------------------------------------ sub-check: whole PSETs
+
+fn pset_full(t: &mut Tape, ctx: &mut Ctx) -> R {
+    let mut p = gp::gen_pset(t, &PsetOpts::default());
+    if t.chance(60) && !p.inputs().is_empty() {
+        // ELIP-102 data lives in the proprietary map
+        let k = t.below(p.inputs().len());
+        p.inputs_mut()[k].set_abf(ct::abf_from(t, 7));
+    }
+    let feats = gp::pset_features(&p);
+    for f in &feats {
+        ctx.class(&format!("pset-feature:{}", f));
+    }
+    ctx.class(&format!("pset:inputs={} outputs={}", p.inputs().len(), p.outputs().len()));
+    let nt = !feats.is_empty() && (!p.inputs().is_empty() || !p.outputs().is_empty());
+    let fails = rt_core("PartiallySignedTransaction", &p, &|a: &Pset, b: &Pset| pset_full_eq(a, b), nt, ctx)?;
+    let parity = p.inputs().iter().any(|i| !i.tap_scripts.is_empty());
+    let byte_value_map = p.inputs().iter().any(has_byte_value_map);
+    settle("PartiallySignedTransaction", fails, Allow { dup_version: true, parity, byte_value_map }, ctx)?;
+    // base64 text form (feature "base64")
+    ctx.eval();
+    ctx.class("PartiallySignedTransaction:display-fromstr");
+    let text = guard::guard("pset.to_string", 0, || p.to_string())?;
+    match guard::guard("Pset::from_str", text.len(), || Pset::from_str(&text))? {
+        Ok(b) => {
+            if !pset_full_eq(&b, &p) {
+                return Err(Failure::new(format!("Pset::from_str(to_string(p)) != p\n before={}\n after ={}", dbg(&p, 700), dbg(&b, 700))));
+            }
+        }
+        Err(e) => return Err(Failure::new(format!("Pset::from_str rejects the PSET's own base64 form: {} ({})", e, prefix(&text, 900)))),
+    }
+    Ok(())
+}
+
+// ------------------------------------------------------------------ sub-check: Display / FromStr
+
+fn display_fromstr(t: &mut Tape, ctx: &mut Ctx) -> R {
+    macro_rules! h32 {
+        ($name:literal, $ty:ty) => {{
+            let b = gen_arr32(t);
+            let v = <$ty>::from_byte_array(b);
+            str_rt($name, &v, b != [0u8; 32], ctx)?;
+        }};
+    }
+    h32!("Txid", Txid);
+    h32!("Wtxid", Wtxid);
+    h32!("BlockHash", BlockHash);
+    h32!("TxMerkleNode", TxMerkleNode);
+    h32!("WScriptHash", WScriptHash);
+    h32!("ContractHash", ContractHash);
+    h32!("AssetId", AssetId);
+    h32!("AssetEntropy", AssetEntropy);
+    h32!("DynafedRoot", DynafedRoot);
+    h32!("ParamsRoot", ParamsRoot);
+    h32!("ElidedRoot", ElidedRoot);
+    h32!("TapLeafHash", TapLeafHash);
+    h32!("TapNodeHash", TapNodeHash);
+    h32!("TapTweakHash", TapTweakHash);
+    {
+        let b = gen_arr20(t);
+        str_rt("ScriptHash", &ScriptHash::from_byte_array(b), b != [0u8; 20], ctx)?;
+    }
+    let op = gen_outpoint(t);
+    str_rt("OutPoint", &op, op != OutPoint::null(), ctx)?;
+    let abf = gen_abf(t, 11);
+    str_rt("AssetBlindingFactor", &abf, abf != AssetBlindingFactor::zero(), ctx)?;
+    let vbf = gen_vbf(t, 12);
+    str_rt("ValueBlindingFactor", &vbf, vbf != ValueBlindingFactor::zero(), ctx)?;
+    // LockTime: Display (non-alternate) prints the consensus number, FromStr parses a number
+    let lt = gen::gen_locktime(t);
+    str_rt("LockTime", &lt, lt != LockTime::ZERO, ctx)?;
+    let h: Height = gp::gen_height(t);
+    str_rt("locktime::Height", &h, h != Height::ZERO, ctx)?;
+    let tm: Time = gp::gen_time(t);
+    str_rt("locktime::Time", &tm, true, ctx)?;
+    let sq = Sequence(t.edgy_u32());
+    str_rt("Sequence", &sq, sq != Sequence::MAX, ctx)?;
+    let e = t.choose(&ECDSA_TYPES);
+    str_rt("EcdsaSighashType", &e, e != EcdsaSighashType::All, ctx)?;
+    let s = t.choose(&gp::SCHNORR_TYPES);
+    str_rt("SchnorrSighashType", &s, s != SchnorrSighashType::Default, ctx)?;
+    let p = gen_psbt_sighash(t);
+    ctx.class(if p.schnorr_hash_ty().is_some() { "psbt-sighash:named" } else { "psbt-sighash:raw" });
+    str_rt("PsbtSighashType", &p, p.schnorr_hash_ty().is_none() || p.to_u32() != 0, ctx)?;
+    let r = c06::gen_ref_addr(t);
+    let a: Address = c06::to_lib(&r)?;
+    str_rt("Address", &a, a.blinding_pubkey.is_some() || matches!(&a.payload, elements::address::Payload::WitnessProgram { .. }), ctx)?;
+    Ok(())
+}
+
+// ------------------------------------------------------------------ property
+
+fn repro_pset_serde() -> bool {
+    let p = Pset::new_v2();
+    let Ok(s) = serde_json::to_string(&p) else { return false };
+    match serde_json::from_str::<Pset>(&s) {
+        Err(e) => e.to_string().contains("duplicate field `version`"),
+        Ok(_) => false,
+    }
+}
+
+fn repro_parity_json() -> bool {
+    let mut b = vec![0xc4u8];
+    b.extend_from_slice(&gen::pool().pubkeys[0].x_only_public_key().0.serialize());
+    let Ok(cb) = ControlBlock::from_slice(&b) else { return false };
+    let Ok(s) = serde_json::to_string(&cb) else { return false };
+    match serde_json::from_str::<ControlBlock>(&s) {
+        Err(e) => e.to_string().contains("expected 8-bit integer (byte) with value 0 or 1"),
+        Ok(_) => false,
+    }
+}
+
+fn repro_byte_map_borrowed() -> bool {
+    let mut i = PsetInput::default();
+    i.partial_sigs.insert(elements::bitcoin::PublicKey { inner: gen::pool().pubkeys[0], compressed: true }, vec![0x30, 0x01]);
+    let Ok(v) = serde_json::to_value(&i) else { return false };
+    match serde_json::from_value::<PsetInput>(v) {
+        Err(e) => e.to_string().contains("expected a borrowed string"),
+        Ok(_) => false,
+    }
+}
 
 pub fn property() -> Property {
-    Property { id: "C20", rule: "", assumptions: &[], subs: vec![], known: vec![] }
+    Property {
+        id: "C20",
+        rule: "Every value comes from the shared tape generators (C01 / C07 variety). serde sub-checks: for each value v of type T \
+               three oracle evaluations: serde_json::from_str(to_string(v)) == v, serde_json::from_value(to_value(v)) == v \
+               (human-readable representation) and serde_cbor::from_slice(to_vec(v)) == v (compact representation); an Err \
+               in either direction is a violation; TapTree / pset::Output / PSET are additionally compared by builder and \
+               leaf list (their PartialEq sees the root hash only). tx_family: Transaction, TxIn, TxOut, TxInWitness, \
+               TxOutWitness, OutPoint, AssetIssuance. block_family: Block, BlockHeader (proof and dynafed), BlockExtData, \
+               dynafed::Params (Null / Compact / Full). confidential: Asset, Value, Nonce (3 variants each, explicit values up \
+               to u64::MAX), Asset/ValueBlindingFactor (zero, small, random), TxOutSecrets. hashes_and_small: 15 hash \
+               newtypes / midstate wrappers, LockTime, Height, Time, Sequence, Ecdsa/Schnorr/Psbt sighash types (raw u32 \
+               values included), SchnorrSig, LeafVersion, ControlBlock, TaprootMerkleBranch, LeafInfo, NodeInfo, TaprootBuilder (empty, \
+               incomplete, hidden nodes, complete), TapTree, Tweak. addresses_scripts: Address (p2pkh, p2sh, witness v0..16, \
+               blinded or not, 3 networks; serde and Display/FromStr), Script. pset_parts: pset::Input and pset::Output with \
+               every field family at densities 40..256/256, Global, GlobalTxData and the other field types of Global on their own, raw::Key / \
+               ProprietaryKey / Pair, TapTree up to 24 leaves. pset_full: whole PSETs (0..3 inputs / outputs) through serde \
+               and base64 text. display_fromstr: T::from_str(v.to_string()) == v for the hash newtypes, OutPoint, blinding \
+               factors, LockTime / Height / Time, Sequence, the three sighash types, Address. Non-trivial: the value is not \
+               the type's default / null / zero value and, for composite types, has >= 1 confidential, optional or map \
+               field populated (tx: >= 1 structural feature; PSET part: >= 1 field family); distinct by (type, JSON text).",
+        assumptions: &[
+            "serde_json stands for human-readable self-describing formats and serde_cbor 0.8 for binary self-describing formats",
+            "SchnorrSighashType::Reserved is a placeholder outside the domain",
+        ],
+        subs: vec![
+            Sub { name: "tx_family", kind: Kind::Tape { max_len: 5000, quick: 24_000, thorough: 600_000, f: tx_family } },
+            Sub { name: "block_family", kind: Kind::Tape { max_len: 5000, quick: 20_000, thorough: 500_000, f: block_family } },
+            Sub { name: "confidential", kind: Kind::Tape { max_len: 600, quick: 30_000, thorough: 750_000, f: confidential } },
+            Sub { name: "hashes_and_small", kind: Kind::Tape { max_len: 2500, quick: 12_000, thorough: 300_000, f: hashes_and_small } },
+            Sub { name: "addresses_scripts", kind: Kind::Tape { max_len: 600, quick: 40_000, thorough: 1_000_000, f: addresses_scripts } },
+            Sub { name: "pset_parts", kind: Kind::Tape { max_len: 4000, quick: 24_000, thorough: 600_000, f: pset_parts } },
+            Sub { name: "pset_full", kind: Kind::Tape { max_len: 6000, quick: 8_000, thorough: 200_000, f: pset_full } },
+            Sub { name: "display_fromstr", kind: Kind::Tape { max_len: 1500, quick: 30_000, thorough: 750_000, f: display_fromstr } },
+        ],
+        known: vec![Known {
+            key: KF_PSET_SERDE,
+            what: "no PSET (nor pset::Global) deserializes from its own JSON or CBOR: the flattened transaction data and the \
+                   global map both write a field `version`, the derived deserializer stops with \"duplicate field `version`\"",
+            repro: repro_pset_serde,
+        },
+        Known {
+            key: KF_PARITY_JSON,
+            what: "a taproot::ControlBlock (and every pset::Input / PSET with tap_scripts) does not deserialize from its own \
+                   JSON: output_key_parity is written as a number that secp256k1::Parity's deserializer (visit_u8 only) rejects",
+            repro: repro_parity_json,
+        },
+        Known {
+            key: KF_BYTE_MAP_BORROWED,
+            what: "a pset::Input with partial_sigs or preimages does not deserialize from its own serde_json::Value (nor from a \
+                   reader): serde_utils::btreemap_byte_values reads the hex value as a borrowed &str",
+            repro: repro_byte_map_borrowed,
+        }],
+    }
 }
